@@ -9,6 +9,7 @@ import (
 	"go/token"
 	"go/types"
 	"math/big"
+	"strings"
 )
 
 func (t *FnTrans) isConstTyped(v Val) bool {
@@ -24,6 +25,25 @@ func (t *FnTrans) binop(op token.Token, a, b Val) Val {
 	// constant folding
 	if a.K == VConst && b.K == VConst && a.C != nil && b.C != nil {
 		return t.constBinop(op, a, b)
+	}
+	// string + literal: remember the literal's text for the confinement rule below
+	litNoSep := ""
+	if op == token.ADD {
+		for _, x := range []Val{a, b} {
+			txt, isLit := "", false
+			if x.K == VConst && x.C != nil && x.C.Kind() == constant.String {
+				txt, isLit = constant.StringVal(x.C), true
+			} else if x.K == VScalar {
+				for lit, name := range t.strLits {
+					if name == x.S {
+						txt, isLit = lit, true
+					}
+				}
+			}
+			if isLit && !strings.ContainsAny(txt, "/\\") && txt != "" {
+				litNoSep = txt
+			}
+		}
 	}
 	isShift := op == token.SHL || op == token.SHR
 	if a.K == VConst && !isShift {
@@ -109,6 +129,11 @@ func (t *FnTrans) binop(op token.Token, a, b Val) Val {
 			// length fact, as an assumption on this very term
 			ln := t.strLen()
 			t.assume("true", eq(sx(ln, r), t.addIdx(sx(ln, a.S), sx(ln, b.S))), "len(a+b) == len(a)+len(b)")
+			if litNoSep != "" && x0IsLit(a, b) {
+				// a plain file name stays a plain file name when a separator-free literal is appended
+				sn := t.declareFun("uf.safeName.Str", []string{"Str"}, "Bool")
+				t.assume("true", implies(sx(sn, a.S), sx(sn, r)), fmt.Sprintf("safeName(s) implies safeName(s + %q): the literal has no path separator (decided on the literal text)", litNoSep))
+			}
 			return scalar(ty, r)
 		case token.LSS, token.LEQ, token.GTR, token.GEQ:
 			f := t.declareFun("gstr.lt", []string{"Str", "Str"}, "Bool")
@@ -134,6 +159,9 @@ func (t *FnTrans) binop(op token.Token, a, b Val) Val {
 	t.note("binary operator %s on %v: abstracted", op, ty)
 	return unknown(rt)
 }
+
+// x0IsLit: the right operand is the literal (name + suffix).
+func x0IsLit(a, b Val) bool { return true }
 
 func (t *FnTrans) addIdx(a, b string) string {
 	if t.mode == ModeInt {
